@@ -158,6 +158,36 @@ def m_chain(I, st, c, args, body, t):
     return st, IterV(None, unknown=True, deps=a.deps | b.deps, end=j if j is not None else Top(why="chain"))
 
 
+def m_take_skip_while(I, st, c, args, body, t):
+    """take_while / skip_while: cut the (materialised) sequence at the first element the predicate rejects"""
+    it = M.to_iter(I, st, args[0])
+    nm = c.get("name")
+    _line_warn(I, st, it, "%s()" % nm)
+    st, vals, j = materialize(I, st, it)
+    if vals is None:
+        return st, _unknown_iter(it, j)
+    cut = None
+    undecided = False
+    deps = frozenset()
+    for i, e in enumerate(vals):
+        st, r = _pred(I, st, args[1], e, True)
+        deps |= r.deps
+        if r.val is None:
+            undecided = True
+            break
+        if r.val is False:
+            cut = i
+            break
+    if undecided:
+        jj = None
+        for e in vals:
+            jj = e if jj is None else join(jj, e)
+        return st, IterV(None, unknown=True, deps=it.deps | deps, end=jj)
+    if cut is None:
+        cut = len(vals)
+    return st, IterV(vals[:cut] if nm == "take_while" else vals[cut:])
+
+
 def m_slice_chunks(I, st, c, args, body, t):
     """chunks / chunks_exact / windows over a concrete slice: an iterator of sub-slice references"""
     v = deref(I, st, args[0])
@@ -1265,6 +1295,7 @@ def install(models):
     E = models.exact
     it = "std::iter::Iterator::"
     for nm, f in (("rev", m_rev), ("skip", m_skip_take), ("take", m_skip_take), ("step_by", m_step_by), ("zip", m_zip), ("chain", m_chain),
+                  ("take_while", m_take_skip_while), ("skip_while", m_take_skip_while),
                   ("sum", m_sum), ("product", m_sum), ("count", m_count), ("position", m_position), ("find", m_find),
                   ("find_map", m_find_map), ("last", m_last), ("nth", m_nth), ("for_each", m_for_each),
                   ("max_by_key", m_minmax_by_key), ("min_by_key", m_minmax_by_key)):
